@@ -53,6 +53,21 @@ pub fn dump_case(id: &str, c: &compiler::pipeline::pipeline::Compilation, out: &
     writeln!(out, "{}\tSTAGE\tlift\t{}", id, prog(dump::lift_file(&c.lambda), &impls).to_text()).unwrap();
     writeln!(out, "{}\tSTAGE\tanf\t{}", id, prog(dump::anf_file(&c.anf), &impls).to_text()).unwrap();
     writeln!(out, "{}\tSTAGE\tgo\t{}", id, godump::gfile(&c.go).to_text()).unwrap();
+    // the printer tie: what the user runs is the printed text
+    let text = c.go.to_pretty(&c.goenv, 120);
+    let erased = crate::goparse::erase_file(&c.go);
+    let verdict = match crate::goparse::parse_go(&text) {
+        Ok(parsed) => {
+            if parsed == erased {
+                "ok".to_string()
+            } else {
+                let d = crate::goparse::first_diff(&erased, &parsed, &mut Vec::new());
+                format!("diff\t{}", crate::sexp::esc_line(&format!("{:?}", d)))
+            }
+        }
+        Err(e) => format!("parse-error\t{}", crate::sexp::esc_line(&e)),
+    };
+    writeln!(out, "{}\tPPRINT\t{}", id, verdict).unwrap();
 }
 
 pub fn main(args: &util::Args) {
